@@ -11,7 +11,7 @@ from pgverif.gen import templates as TT
 from pgverif.monitors import genoref as G
 
 TIERS = {
-    'quick': dict(shards=8, max_dnas=6, family_stride=4, random=26, dnas=4,
+    'quick': dict(shards=8, max_dnas=6, family_stride=4, random=28, dnas=4,
                   iter_max=24, corrupt=2, max_nodes=45, history=6,
                   family_history=3, timeout_s=600),
     'thorough': dict(shards=16, max_dnas=24, family_stride=1, random=190,
@@ -463,7 +463,15 @@ def check_dna(ctx, cs, m, j):
     if variant_name == 'clone':
       if j != 0 or not isinstance(d1, pg.Symbolic):
         continue
-      d1 = d1.clone(deep=True)
+      try:
+        d1 = d1.clone(deep=True)
+      except Exception as ex:  # pylint: disable=broad-except
+        if not is_lib_error(ex):
+          raise
+        # cloning applies the bound value specs to the decoded parts again
+        ctx.violation('field-spec-broken', 'clone-rejected',
+                      f'clone of decode({dna!r}) raised:\n{tb(ex)}', cs.record)
+        break
     c['encode_checks'] += 1
     try:
       e = cs.t.encode(d1)
@@ -971,15 +979,15 @@ def _random_case(rng):
   r = rng.random()
   plain = bad = False
   W = TT.ALL
-  if r < 0.24:
+  if r < 0.22:
     st = TT.State(rng, tags=rng.random() < 0.5)
     bad = rng.random() < 0.1
     T = TT.typed_template(st, bad_size=bad)
     kind = 'typed'
-  elif r < 0.44:
+  elif r < 0.48:
     T = TT.bound_template(TT.State(rng, tags=rng.random() < 0.5))
     kind = 'bound'
-  elif r < 0.58:
+  elif r < 0.60:
     T = TT.evolve_template(TT.State(rng, tags=rng.random() < 0.5))
     kind = 'evolve'
   else:
@@ -991,7 +999,7 @@ def _random_case(rng):
                          dup=rng.choice([0.0, 0.0, 0.3, 0.5]),
                          evolve=0.5)
     kind = 'rendered'
-  if rng.random() < 0.4:
+  if rng.random() < (0.2 if kind == 'bound' else 0.4):
     W = TT.random_where(rng, T)
   if not bad and kind != 'bound' and T['t'] in ('dict', 'list') and rng.random() < 0.06:
     plain = True
